@@ -11,6 +11,7 @@ import (
 	"os"
 	"os/exec"
 	"path/filepath"
+	"runtime/debug"
 	"sort"
 	"strconv"
 	"strings"
@@ -367,4 +368,28 @@ func (r *Report) Shards(parts []string, par int, env func(part string) []string)
 			r.EngineError("shard %s: %v", parts[i], err)
 		}
 	}
+}
+
+// Guard runs f; a panic of the code under test (or of the lock-leak watch of the native shims) becomes a violation
+// with signature crash/<first frame of the code under test> instead of the death of the worker.
+func (r *Report) Guard(what string, replay any, f func()) {
+	defer func() {
+		if p := recover(); p != nil {
+			st := string(debug.Stack())
+			site := "unknown"
+			for _, ln := range strings.Split(st, "\n") {
+				ln = strings.TrimSpace(ln)
+				if (strings.HasPrefix(ln, "github.com/openconfig/gribigo/") || strings.HasPrefix(ln, "github.com/openconfig/ygot/")) && strings.Contains(ln, "(") {
+					site = strings.TrimPrefix(ln[:strings.LastIndex(ln, "(")], "github.com/openconfig/")
+					break
+				}
+			}
+			ls := strings.Split(st, "\n")
+			if len(ls) > 40 {
+				ls = ls[:40]
+			}
+			r.Violate("crash/"+site, fmt.Sprintf("%s: panic: %v\n%s", what, p, strings.Join(ls, "\n")), replay)
+		}
+	}()
+	f()
 }
